@@ -75,9 +75,15 @@ def _registrations(f_call, meths=None):
     nested = nested_defs(f_call)
     md_calls = [c for c in body_walk(f_call) if isinstance(c, ast.Call) and call_attr(c) == "maybeDeferred"]
     holders = set()
+
+    def chain_root(e):
+        # addCallback & co return the Deferred they are applied to: a chain rooted at the maybeDeferred call denotes that same Deferred
+        while isinstance(e, ast.Call) and isinstance(e.func, ast.Attribute) and e.func.attr in ("addCallback", "addErrback", "addCallbacks", "addBoth"):
+            e = e.func.value
+        return e
     for st in body_walk(f_call):
         for t, v in assign_pairs(st):
-            if isinstance(t, ast.Name) and any(v is c for c in md_calls):
+            if isinstance(t, ast.Name) and any(chain_root(v) is c for c in md_calls):
                 holders.add(t.id)
 
     def rooted(e):
